@@ -57,6 +57,29 @@ CHECKS.update({
             "DESIGN.md 4/C14"),
 })
 
+CHECKS.update({
+    "C05": ("exploration",
+            "exhaustive enumeration of cell tables x layouts x delimiters x header x decimal x sign; expected transactions computed from the cells by an independent reader; row-independence transition oracle",
+            "Every table of <=2 (quick) / <=3 (thorough) rows over 29 row kinds is rendered under 7 layouts x 4 delimiter kinds x header/no header x 2 decimal conventions x 4 sign modes "
+            "and read by the real resolve_source_format + parse_generic_csv; the result must equal the transactions derived from the cell table, and parse(table) must equal the "
+            "concatenation of parse(row) for each row.",
+            "reference reader is Decimal-based and follows the statement; ambiguous numerals / trailing date text / unrepresentable rows excluded and listed in assumptions",
+            "DESIGN.md 4/C05"),
+    "C18": ("exploration",
+            "exhaustive enumeration of column-token sequences (valid and invalid) x date formats x templates x spellings against a reference mapper; exhaustive header rows x date styles through the real inspect command with round-trip oracle",
+            "All 11k (quick) / 111k (thorough) token sequences x 3 date formats x 4 templates x 4 spellings must be parsed to exactly the reference positions/date format/sign mode or rejected; "
+            "for every header row of <=4/5 cells over 15 header texts (x5 data date styles) on which `tally inspect` prints a suggestion, parse_format_string must accept it and select the "
+            "date/description/amount columns inspect reported.",
+            "arrangements with {description} plus a satisfiable template are not judged; inspect run in-process",
+            "DESIGN.md 4/C18"),
+    "C19": ("exploration",
+            "exhaustive enumeration of token-sequence descriptions x processor prefixes through the real suggestion functions, loader and matcher; end-to-end discover->append->discover runs in forked CLI processes",
+            "Every description of <=4 (quick) / <=5 (thorough) tokens over an 18-token alphabet (regex metacharacters, quotes, backslash, store numbers, zip codes, state codes, non-ASCII) "
+            "x 6 prefixes: the suggested rule must load and, with a category filled in, match that description; 18/54 end-to-end budgets must end with an empty Unknown list.",
+            "placeholders CATEGORY/SUBCATEGORY replaced textually; alphabet-bounded",
+            "DESIGN.md 4/C19"),
+})
+
 NOT_YET = {}
 
 PROPS = [json.loads(l)["id"] for l in open(os.path.join(ROOT, "properties.jsonl"))]
